@@ -11,7 +11,7 @@ RULE = ("random sequences (1..12) of the ten API operations (incl. reboot, pull 
 ASSUMPTIONS = ["stream closure is demanded only of calls that return normally (push on FAIL and timed-out commands abandon their stream by design)",
                "the simulator answers a host CLSE on a live stream with one CLSE and stalls (stop-and-wait) until it is owed OKAY arrives"]
 SHARDS = {"quick": 8, "thorough": 16}
-TIME_BUDGET = {"quick": 60, "thorough": 600}
+TIME_BUDGET = {"quick": 300, "thorough": 1800}
 FLOORS = {"quick": {"opens": 2000, "okays_checked": 2000, "wrtes_checked": 1000, "clses_checked": 1500, "calls_closed_checked": 1500, "distinct": 300, "pushes_failed_by_device": 60, "long_commands": 40},
           "thorough": {"opens": 30000, "okays_checked": 30000, "wrtes_checked": 15000, "clses_checked": 20000, "calls_closed_checked": 20000}}
 
